@@ -58,6 +58,10 @@ class NumOps (N : Type) where
   canon : N → String
   /-- two-argument math builtins by name (`pow`, `atan2`), `none` = not modelled -/
   math2 : String → N → N → Option N := fun _ _ _ => none
+  /-- a computed number whose representation in succinctly (i64 or f64) depends on where the
+  implementation re-reads values from their printed form: an integral double without a spelling of
+  its own, `2^53 ≤ |x|`, inside the i64 range. The model gives no verdict on runs that compute one. -/
+  unstable : N → Bool := fun _ => false
 
 /-- The laws the C25 theorems assume about the carrier (trusted for the executable `JNum`). -/
 class LawfulNum (N : Type) [NumOps N] : Prop where
